@@ -24,7 +24,9 @@ META = {
         "times; on decline FAIL is recorded. (b) Pure half: create_retry_strategy over generated configs (max_attempts "
         "1-64, delays 0-3600 s, rate 1-10, all jitters, message/type filters) x attempts x errors with random.random fed "
         "from drawn floats (incl. 0.0 and 1-eps): should_retry <=> attempts<max and filter matches; delay == max(1, "
-        "ceil(jitter(min(initial*rate^(n-1), max_delay)))) for the drawn sample, hence within [1, max(1, max_delay)]. "
+        "ceil(jitter(min(initial*rate^(n-1), max_delay)))) for the drawn sample, hence within [1, max(1, max_delay)]; the same law "
+        "for every call of a HISTORY of 2-6 failures (classes and messages mixed) put to ONE strategy object. Decision-table "
+        "strategies build a third of their decisions with the RetryDecision dataclass constructor instead of the factory. "
         "Non-trivial = >=2 attempts spanning >=2 invocations (workflow) or a retry decision with jitter != NONE (pure); "
         "distinct = (program shape, plan, outcomes) / (config, attempt, sample)."
     ),
@@ -115,20 +117,39 @@ pure_inputs = st.tuples(pure_cfgs, st.integers(1, 64), st.sampled_from(["UserErr
                         st.one_of(st.sampled_from([0.0, 0.5, 1 - 2**-53, 0.999999]), st.floats(0, 1, exclude_max=True)))
 
 
-def check_pure(inp) -> list[dict]:
-    from .. import detsched  # noqa: F401 - make sure random.random is the dispatcher (unmanaged -> real)
-    import random as _r
-
+def _mk_strategy(cfg):
     from aws_durable_execution_sdk_python.config import Duration, JitterStrategy
     from aws_durable_execution_sdk_python.retries import RetryStrategyConfig, create_retry_strategy
 
     from ..wfrun import USER_ERRORS
 
-    cfg, n, errname, msg, u = inp
-    strat = create_retry_strategy(RetryStrategyConfig(
+    return create_retry_strategy(RetryStrategyConfig(
         max_attempts=cfg["max_attempts"], initial_delay=Duration(seconds=cfg["initial"]), max_delay=Duration(seconds=cfg["max_delay"]),
         backoff_rate=cfg["rate"], jitter_strategy=JitterStrategy(cfg["jitter"]), retryable_errors=cfg["errors"],
         retryable_error_types=[USER_ERRORS[x] for x in cfg["types"]] if cfg["types"] is not None else None))
+
+
+def check_pure_seq(cfg, calls) -> list[dict]:
+    """One strategy object (a module-level strategy in a warm container) consulted for a HISTORY of failures: each
+    answer must be the law's answer for that call alone, whatever was asked before."""
+    strat = _mk_strategy(cfg)
+    out = []
+    for i, (n, errname, msg, u) in enumerate(calls):
+        for v in check_pure((cfg, n, errname, msg, u), strat=strat):
+            out.append({**v, "kind": v["kind"] + ("_after_history" if i else ""), "detail": f"call #{i + 1} of {len(calls)} on one strategy object: " + v["detail"]})
+        if out:
+            break
+    return out
+
+
+def check_pure(inp, strat=None) -> list[dict]:
+    from .. import detsched  # noqa: F401 - make sure random.random is the dispatcher (unmanaged -> real)
+    import random as _r
+
+    from ..wfrun import USER_ERRORS
+
+    cfg, n, errname, msg, u = inp
+    strat = strat or _mk_strategy(cfg)
     err = USER_ERRORS[errname](msg)
     old = _r.random
     _r.random = lambda: u
@@ -173,6 +194,21 @@ def _pure_stage(ctx):
 
     t()
 
+    calls = st.lists(st.tuples(st.integers(1, 6), st.sampled_from(["UserError", "OtherUserError", "ValueError"]), st.sampled_from(["boom", "always", "x y"]),
+                               st.sampled_from([0.0, 0.5, 0.999999])), min_size=2, max_size=6)
+
+    @seed(ctx.seed + 6)
+    @settings(max_examples=max(50, ctx.budget["pure_cases"] // 5), database=None, deadline=None, phases=[Phase.generate], suppress_health_check=list(HealthCheck))
+    @given(pure_cfgs, calls)
+    def t2(cfg, cs):
+        vs = check_pure_seq(cfg, [list(c) for c in cs])
+        mixed = len({c[1] for c in cs}) >= 2 and len({c[2] for c in cs}) < len(cs) and (cfg["types"] or cfg["errors"])
+        ctx.case(nontrivial_key=["pure-seq", cfg, [list(c) for c in cs]] if mixed else None, classes=["pure-history"] + (["pure-history:same-message-different-class"] if mixed else []), sample=None)
+        for v in vs:
+            ctx.violation(v["kind"], v["site"], v["detail"], {"pure_seq": [cfg, [list(c) for c in cs]]})
+
+    t2()
+
 
 install(globals(), props=("C12",), cases=cases, nontrivial=nontrivial, classes=classes, stages=(_pure_stage,))
 _wf_replay = replay  # noqa: F821
@@ -182,6 +218,8 @@ def replay(case):
     if "pure" in case:
         c = case["pure"]
         return check_pure((c[0], c[1], c[2], c[3], c[4]))
+    if "pure_seq" in case:
+        return check_pure_seq(case["pure_seq"][0], case["pure_seq"][1])
     return _wf_replay(case)
 
 
@@ -189,6 +227,6 @@ _wf_min = minimise  # noqa: F821
 
 
 def minimise(entry):
-    if "pure" in entry["case"]:
+    if "pure" in entry["case"] or "pure_seq" in entry["case"]:
         return entry
     return _wf_min(entry)
